@@ -13,7 +13,8 @@
    elements that do appear are judged, element by element, property by property:
      c03_computed_value            get_style(p) is not Comp(doc, R, k, p, t) (lengths within TOL / SCALE)
      c03_applicable_value_present  an applicable property has no value at all
-   Failing clauses print <<"FAIL", id, tick, R, k, property, clause, expected value>>.               *)
+   Failing clauses print <<"FAIL", id, tick, R, k, property, clause, expected value>>; values outside the
+   property's domain (Styles!PositionContested) print <<"SKIP", ...>> and are counted.                *)
 EXTENDS Styles, Json, IOUtils, TLCExt
 
 Recs == ndJsonDeserialize(IOEnv.TRACE_FILE)
@@ -27,6 +28,7 @@ CheckEl(rec, t, el) ==
   IN  /\ \A j \in 1..Len(el.st) :
            LET p == el.st[j].p IN
            IF p \notin judged THEN TRUE
+           ELSE IF p \in {"Origin", "Position"} /\ PositionContested(cx, el.k) THEN PrintT(<<"SKIP", rec.id, t, el.R, el.k, p>>)
            ELSE LET c == Comp(cx, el.k, p) IN
                 IF ValEq(c, el.st[j].v) THEN TRUE
                 ELSE PrintT(<<"FAIL", rec.id, t, el.R, el.k, p, "c03_computed_value", Canon(c)>>)
